@@ -15,6 +15,26 @@ Hypothesis Hcodec : codec_statement.
 Hypothesis Htotal : compile_total_statement.
 Variable ty : N.
 
+Definition cinv (E : store) (b : builder) : Prop := cgood E /\ Cstk (elang E) (b_stack b).
+
+Lemma last_opt_snoc {A} (l : list A) x : last_opt (l ++ [x]) = Some x.
+Proof.
+  induction l as [|y l IH]; [reflexivity|]. cbn [app].
+  destruct (l ++ [x]) eqn:X; [destruct l; discriminate|]. exact IH.
+Qed.
+
+Lemma top_final_one (u : unf) : top_final [u].
+Proof. intros v _. left. reflexivity. Qed.
+
+Lemma fcp0_cpl : forall st k bs, shape st k -> fcp0 st bs = cpl k bs.
+Proof.
+  induction st as [|u st IH]; intros k bs Hs; [destruct Hs|].
+  destruct bs as [|b bs]; [destruct k; reflexivity|]. cbn [fcp0 shape] in *.
+  destruct k as [|c k].
+  - destruct Hs as (-> & _). reflexivity.
+  - destruct Hs as ((o & ->) & Hs). cbn [cpl]. destruct (c =? b); [|reflexivity]. f_equal. auto.
+Qed.
+
 (* the empty key *)
 Lemma insert_empty_ok G rem E acc b outo b' r :
   inv ty G rem E acc b ->
@@ -23,9 +43,9 @@ Lemma insert_empty_ok G rem E acc b outo b' r :
   (is_dup acc [] = true -> outo = None) ->
   insert_output b [] outo = (b', r) ->
   r = Ok tt /\ inv ty G rem E (if is_dup acc [] then acc else ([], out_of outo) :: acc) b' /\
-  b_last b' = b_last b.
+  b_last b' = b_last b /\ (cinv E b -> cinv E b').
 Proof.
-  intros [Hm Hs Htop Hlen Hbud HG Hna] Hout Hk Hdup Hc.
+  intros [Hm Hs Htop Hlen Hbud HG Hna Hkb Htrim Htf Hbb] Hout Hk Hdup Hc.
   destruct Hs as [Hsh Hu HW Hd HL]. rewrite Hk in Hsh.
   destruct (b_stack b) as [|root rest] eqn:Hst; [destruct Hsh|]. cbn [shape] in Hsh.
   destruct Hsh as (Hrl & ->).
@@ -39,8 +59,9 @@ Proof.
     { rewrite <- (rev_involutive acc), <- HL. reflexivity. }
     assert (Hd1 : is_dup acc [] = true) by (rewrite Hacc; reflexivity).
     rewrite Hd1. rewrite (Hdup Hd1) in Hc. inversion Hc; subst b' r; clear Hc.
-    split; [reflexivity|]. split; [|reflexivity].
-    constructor; cbn [with_len b_stack b_len]; auto.
+    split; [reflexivity|]. split; [|split; [reflexivity|]].
+    2:{ unfold cinv. cbn [with_len b_stack]. auto. }
+    constructor; cbn [with_len b_stack b_len].
     + eapply minv_frame; [..|exact Hm]; reflexivity.
     + rewrite Hst, Hk. constructor; auto. cbn [shape]. auto.
       cbn [Lstk]. rewrite Hrl, app_nil_r. unfold lang_node. rewrite Hrt, Hfin. cbn [flat_map]. rewrite app_nil_r.
@@ -48,17 +69,24 @@ Proof.
     + rewrite Hst. exact Htop.
     + rewrite Hacc. reflexivity.
     + rewrite Hst. exact Hbud.
+    + exact HG.
+    + exact Hna.
+    + exact Hkb.
+    + exact Htrim.
+    + rewrite Hst. exact Htf.
+    + exact Hbb.
   - assert (Hacc : acc = []).
     { rewrite <- (rev_involutive acc), <- HL. reflexivity. }
     subst acc. cbn [is_dup].
-    assert (Hkeep : match outo with Some _ => false | None => false end = false) by (destruct outo; reflexivity).
     assert (Hc' : (with_stack (with_len b 1)
                      [mkUnf (mkBnode true (out_of outo) (n_trans (u_node root))) (u_last root)], Ok tt) = (b', r)).
     { destruct outo; exact Hc. }
     clear Hc. inversion Hc'; subst b' r; clear Hc'.
-    split; [reflexivity|]. split; [|reflexivity].
+    split; [reflexivity|]. split; [|split; [reflexivity|]].
+    2:{ unfold cinv, Cstk. cbn [with_stack with_len b_stack Cpost u_node u_last n_trans]. rewrite Hst.
+        cbn [Cpost]. rewrite Hrl, Hrt. intros (A & B & _). split; [exact A|]. split; [|exact I]. intros t []. }
     inversion Hu as [|? ? Hu1 _]; subst. destruct Hu1 as (U1 & U2 & U3 & U4).
-    constructor; cbn [with_stack with_len b_stack b_len lastkey]; auto.
+    constructor; cbn [with_stack with_len b_stack b_len lastkey].
     + eapply minv_frame; [..|exact Hm]; reflexivity.
     + constructor.
       * cbn [shape u_last]. auto.
@@ -70,7 +98,14 @@ Proof.
       * cbn [Lstk u_node u_last]. rewrite Hrl, app_nil_r. unfold lang_node. cbn [n_final n_fout n_trans].
         rewrite Hrt. reflexivity.
     + unfold top_empty. cbn [last_opt]. intros u Hu'. inversion Hu'; subst. cbn [u_node n_trans]. exact Hrt.
+    + reflexivity.
+    + exact Hbud.
+    + exact HG.
     + unfold len in *. cbn [length] in *. lia.
+    + cbn [keys_of map fst key_bytes fold_right] in *. unfold len in *. cbn [length] in *. lia.
+    + exact Htrim.
+    + apply top_final_one.
+    + exact Hbb.
 Qed.
 
 Lemma firstn_app_exact {A} (l1 l2 : list A) n : length l1 = n -> firstn n (l1 ++ l2) = l1.
@@ -86,41 +121,54 @@ Lemma insert_nonempty_ok G rem E acc b b0 bs0 outo b' r :
   insert_output b bs outo = (b', r) ->
   exists E', r = Ok tt /\
     inv ty G rem E' (if is_dup acc bs then acc else (bs, out_of outo) :: acc) b' /\
-    b_last b' = b_last b.
+    b_last b' = b_last b /\ (cinv E b -> cinv E' b').
 Proof.
-  intros bs [Hm Hs Htop Hlen Hbud HG] Hbytes Hout Hcmp Hdup Hc.
+  intros bs [Hm Hs Htop Hlen Hbud HG Hna Hkb Htrim Htf Hbb] Hbytes Hout Hcmp Hdup Hc.
   set (k := lastkey acc) in *. set (out := out_of outo) in *.
-  destruct Hs as [Hsh Hu HW Hd HL].
-  destruct (fcp_ok E bs (b_stack b) k out 0 Hsh Hu HW) as (st & o2 & Hf & S1 & S2 & S3 & S4 & S5 & S6 & S7); auto.
   set (p := cpl k bs) in *.
   destruct (cpl_spec k bs Hcmp) as (C1 & C2 & C3 & C4 & C5). fold p in C1, C2, C3, C4, C5.
-  pose proof (shape_length _ _ Hsh) as Hlst0. pose proof (shape_length _ _ S1) as Hlst.
-  assert (Hs1 : sinv E st k (rev acc)).
-  { constructor; auto. rewrite S5. exact HL. }
+  assert (Hdupp : is_dup acc bs = true <-> p = length bs).
+  { split.
+    - destruct acc as [|[k0 v0] acc0]; [discriminate|]. cbn [is_dup]. intros X. apply key_eqb_eq in X.
+      unfold p, k. cbn [lastkey]. rewrite <- X. apply cpl_refl.
+    - intros Heq. pose proof (C4 Heq) as Hbk.
+      destruct acc as [|[k0 v0] acc0]; [discriminate Hbk|]. cbn [is_dup]. apply key_eqb_eq. exact Hbk. }
   unfold insert_output in Hc. fold bs in Hc.
-  change (match outo with Some o => o | None => 0 end) with out in Hc. rewrite Hf in Hc.
+  rewrite (fcp0_cpl _ _ bs (s_shape _ _ _ _ Hs)) in Hc. fold k p in Hc.
+  change (match outo with Some o => o | None => 0 end) with out in Hc.
   destruct (Nat.eqb_spec p (length bs)) as [Heq|Hne].
-  - (* the key is the last key again: only `add` gets here *)
-    pose proof (C4 Heq) as Hbk.
-    assert (Hd1 : is_dup acc bs = true).
-    { destruct acc as [|[k0 v0] acc0]; [discriminate Hbk|]. cbn [is_dup]. apply key_eqb_eq. exact Hbk. }
-    rewrite Hd1. pose proof (Hdup Hd1) as Hnone. subst outo. cbn [out_of] in out.
-    assert (o2 = 0) by (unfold out in S7; lia). subst o2. rewrite N.eqb_refl in Hc.
-    inversion Hc; subst b' r; clear Hc. exists E. split; [reflexivity|]. split; [|reflexivity].
-    constructor; cbn [with_stack b_stack b_len]; auto.
-    + eapply minv_frame; [..|exact Hm]; reflexivity.
-    + unfold len in *. lia.
-    + unfold len in *. lia.
-  - (* a new key *)
+  - (* the key is the last key again: only `add` gets here, and nothing happens *)
+    assert (Hd1 : is_dup acc bs = true) by (apply Hdupp; exact Heq).
+    rewrite Hd1. rewrite (Hdup Hd1) in Hc. cbn [andb] in Hc.
+    inversion Hc; subst b' r; clear Hc. exists E. split; [reflexivity|]. split; [|split; [reflexivity|auto]].
+    constructor; auto; unfold len in *; lia.
+  - rewrite andb_false_r in Hc.
     assert (Hd0 : is_dup acc bs = false).
-    { destruct acc as [|[k0 v0] acc0]; [reflexivity|]. cbn [is_dup]. destruct (key_eqb bs k0) eqn:X; [|reflexivity].
-      apply key_eqb_eq in X. exfalso. apply Hne. unfold p, k. cbn [lastkey]. rewrite <- X. apply cpl_refl. }
+    { destruct (is_dup acc bs) eqn:X; [|reflexivity]. exfalso. apply Hne, Hdupp. reflexivity. }
     rewrite Hd0.
+    destruct Hs as [Hsh Hu HW Hd HL].
+    destruct (fcp_ok E bs (b_stack b) k out 0 Hsh Hu HW) as
+      (st & o2 & Hf & S1 & S2 & S3 & S4 & S5 & S6 & S7 & S8 & S9); auto.
+    fold p in Hf, S7, S9.
+    pose proof (shape_length _ _ Hsh) as Hlst0. pose proof (shape_length _ _ S1) as Hlst.
+    assert (Hs1 : sinv E st k (rev acc)).
+    { constructor; auto. rewrite S5. exact HL. }
+    rewrite Hf in Hc.
+    destruct (Nat.eqb_spec p (length bs)) as [X|_]; [contradiction|].
     set (b2 := with_len (with_stack b st) (b_len (with_stack b st) + 1)) in *.
     assert (Hm2 : minv ty E b2) by (eapply minv_frame; [..|exact Hm]; reflexivity).
+    assert (Htf2 : top_final st).
+    { intros u Hu'. destruct (shape_top _ _ S1) as (lo & t & Hst & Ht & Hlo).
+      destruct (shape_top _ _ Hsh) as (lo' & t' & Hst' & Ht' & Hlo').
+      pose proof (@last_opt_snoc unf) as Hlu.
+      rewrite Hst, Hlu in Hu'. inversion Hu'; subst u.
+      destruct (Htf t') as [X|X]; [rewrite Hst'; apply Hlu|left; lia|right].
+      unfold finals in S8. rewrite Hst, Hst', !map_app in S8. cbn [map] in S8.
+      apply (f_equal (@rev bool)) in S8. rewrite !rev_app_distr in S8. cbn [rev app] in S8.
+      inversion S8. congruence. }
     destruct (compile_from b2 p) as [b3 r3] eqn:Hcf.
     destruct (compile_from_ok Hcodec Htotal ty E b2 k (rev acc) p b3 r3 Hm2 Hs1) as
-      (E' & -> & Hm3 & F1 & F2 & Flen & Fs & Fcase); auto.
+      (E' & -> & Hm3 & F1 & F2 & Flen & Fs & Fcase & Ftrim & Fbb & FC); auto.
     { cbn [b2 with_len with_stack b_stack]. unfold len, NODE_MAX in *. lia. }
     cbn [b2 with_len with_stack b_stack b_len b_last] in *.
     destruct (skipn_cons_length p bs) as (b1 & r1 & Hsk); [lia|].
@@ -155,20 +203,38 @@ Proof.
     rewrite Hst3 in Fs. rewrite Hlo in S7.
     destruct (add_suffix_ok E' lo top (firstn p k) (rev acc) b1 r1 o2 Fs Htopb Hb1 Hr1) as
       (st' & Has & Ss & St & Sl); [unfold out in *; lia|].
+    assert (Hst'eq : st' = lo ++ [mkUnf (u_node top) (Some (b1, o2))] ++ suffix_nodes r1).
+    { destruct (shape_top _ _ (s_shape _ _ _ _ Fs)) as (lo2 & t2 & Heq2 & Ht2 & _).
+      apply app_inj_tail in Heq2. destruct Heq2 as (<- & <-).
+      unfold add_suffix in Has. rewrite rev_app_distr in Has. cbn [rev app] in Has.
+      rewrite Ht2, rev_involutive in Has. inversion Has. reflexivity. }
     rewrite Hst3, Hsk, Has in Hc. inversion Hc; subst b' r; clear Hc.
-    exists E'. split; [reflexivity|]. split; [|exact F1].
+    exists E'. split; [reflexivity|].
     assert (Hkey : firstn p k ++ b1 :: r1 = bs).
     { rewrite <- C1, <- Hsk. apply firstn_skipn. }
     rewrite Hkey in Ss. replace (psum lo + o2) with out in Ss by lia.
-    constructor; cbn [with_stack b_stack b_len lastkey]; [| | exact St | | | exact HG | ].
-    + eapply minv_frame; [..|exact Hm3]; reflexivity.
-    + cbn [rev]. exact Ss.
-    + rewrite F2, Hlen. unfold len. cbn [length]. lia.
-    + rewrite Hst3 in Flen. assert (length lo = p) by (rewrite <- Hlo; apply firstn_length_le; lia).
-      assert (length bs = p + length (b1 :: r1))%nat.
-      { rewrite <- Hsk, skipn_length. lia. }
-      unfold len in *. rewrite app_length in Flen. cbn [length] in *. lia.
-    + unfold len in *. cbn [length] in *. lia.
+    assert (Hlenlo : length lo = p) by (rewrite <- Hlo; apply firstn_length_le; lia).
+    assert (Hlenbs : length bs = (p + length (b1 :: r1))%nat).
+    { rewrite <- Hsk, skipn_length. lia. }
+    split; [|split; [exact F1|]].
+    + constructor; cbn [with_stack b_stack b_len lastkey].
+      * eapply minv_frame; [..|exact Hm3]; reflexivity.
+      * cbn [rev]. exact Ss.
+      * exact St.
+      * rewrite F2, Hlen. unfold len. cbn [length]. lia.
+      * rewrite Hst3 in Flen. unfold len in *. rewrite app_length in Flen. cbn [length] in *. lia.
+      * exact HG.
+      * unfold len in *. cbn [length] in *. lia.
+      * cbn [keys_of map fst key_bytes fold_right]. unfold key_bytes, keys_of in Hkb. lia.
+      * exact Ftrim.
+      * rewrite Hst'eq, app_assoc. apply top_final_suffix.
+      * eapply bbytes_frame; [|exact Fbb]. reflexivity.
+    + intros (Hcg & HCs). cbn [with_stack b_stack].
+      destruct (FC o2 Hcg (S9 HCs)) as (Hcg' & HC').
+      split; [exact Hcg'|]. rewrite Hst'eq. rewrite Hst3, <- Hlenlo in HC'.
+      destruct (shape_top _ _ (s_shape _ _ _ _ Fs)) as (lo2 & t2 & Heq2 & Ht2 & Hlo2).
+      apply app_inj_tail in Heq2. destruct Heq2 as (<- & <-).
+      eapply add_suffix_C; eauto.
 Qed.
 
 (* ---------- one accepted call ---------- *)
@@ -177,7 +243,7 @@ Proof. destruct k; cbn; discriminate. Qed.
 
 Lemma inv_with_last G rem E acc b l : inv ty G rem E acc b -> inv ty G rem E acc (with_last b l).
 Proof.
-  intros [Hm Hs Htop Hlen Hbud HG Hna]. constructor; cbn [with_last b_stack b_len]; auto.
+  intros [Hm Hs Htop Hlen Hbud HG Hna Hkb Htrim Htf Hbb]. constructor; cbn [with_last b_stack b_len]; auto.
   eapply minv_frame; [..|exact Hm]; reflexivity.
 Qed.
 
@@ -186,7 +252,7 @@ Lemma apply_op_ok G rem E acc b o l' :
   spec_call (b_last b) o = (l', Ok tt) ->
   exists E' b', apply_op b o = (b', Ok tt) /\
     inv ty G rem E' (step_acc (b_last b) acc o) b' /\ last_ok (step_acc (b_last b) acc o) b' /\
-    b_last b' = l'.
+    b_last b' = l' /\ (cinv E b -> cinv E' b').
 Proof.
   intros Hinv Hlast (Hkb & Hv) Hsc.
   set (k := op_key o) in *. set (outo := match o with OpInsert _ v => Some v | OpAdd _ => None end).
@@ -225,16 +291,16 @@ Proof.
   rewrite Hacc'.
   destruct (insert_output (with_last b (Some k)) k outo) as [b' r] eqn:Hio.
   assert (Hres : exists E', r = Ok tt /\ inv ty G rem E' (if is_dup acc k then acc else (k, out_of outo) :: acc) b' /\
-                            b_last b' = Some k).
+                            b_last b' = Some k /\ (cinv E b -> cinv E' b')).
   { destruct k as [|b0 bs0] eqn:Hk.
     - assert (Hlk : lastkey acc = []) by (destruct (lastkey acc); [reflexivity|cbn in Hcmp; congruence]).
       assert (Hinv0 : inv ty G rem E acc (with_last b (Some []))).
-      { destruct Hinv1 as [A1 A2 A3 A4 A5 A6 A7]. constructor; auto. }
-      destruct (insert_empty_ok G rem E acc _ outo b' r Hinv0) as (Hr & Hi & Hl); auto; [lia|].
+      { destruct Hinv1 as [A1 A2 A3 A4 A5 A6 A7 A8 A9 A10 A11]. constructor; auto. }
+      destruct (insert_empty_ok G rem E acc _ outo b' r Hinv0) as (Hr & Hi & Hl & HC); auto; [lia|].
       exists E. auto.
-    - destruct (insert_nonempty_ok G rem E acc _ b0 bs0 outo b' r Hinv1) as (E' & Hr & Hi & Hl); auto; [lia|].
+    - destruct (insert_nonempty_ok G rem E acc _ b0 bs0 outo b' r Hinv1) as (E' & Hr & Hi & Hl & HC); auto; [lia|].
       exists E'. auto. }
-  destruct Hres as (E' & -> & Hi & Hl). exists E', b'. splits; auto.
+  destruct Hres as (E' & -> & Hi & Hl & HC). exists E', b'. splits; auto.
   red. rewrite Hl. destruct (is_dup acc k) eqn:Hd; [|reflexivity].
   destruct acc as [|[k0 v0] acc0]; [discriminate|]. cbn [is_dup] in Hd. apply key_eqb_eq in Hd. congruence.
 Qed.
@@ -244,7 +310,8 @@ Lemma run_extend_ok : forall ops G rem E acc b,
   inv ty G (key_bytes (map op_key ops) + rem) E acc b -> last_ok acc b -> Forall op_ok ops ->
   Forall (fun r => r = Ok tt) (spec_calls (b_last b) ops) ->
   exists E' acc' b', run_extend b ops = (b', Ok tt) /\
-    inv ty G rem E' acc' b' /\ rev acc' = spec_content (b_last b) ops acc.
+    inv ty G rem E' acc' b' /\ rev acc' = spec_content (b_last b) ops acc /\
+    (cinv E b -> cinv E' b').
 Proof.
   induction ops as [|o ops IH]; intros G rem E acc b Hinv Hlast Hok Hcalls.
   - exists E, acc, b. cbn [run_extend spec_content map key_bytes fold_right] in *. splits; auto.
@@ -252,10 +319,10 @@ Proof.
     inversion Hcalls as [|? ? Hx Hrest]; subst. inversion Hok as [|? ? Ho Hoks]; subst.
     cbn [map key_bytes fold_right] in Hinv.
     assert (Hinv' : inv ty G (len (op_key o) + (key_bytes (map op_key ops) + rem)) E acc b).
-    { destruct Hinv as [A1 A2 A3 A4 A5 A6 A7]. constructor; auto; unfold key_bytes in *; lia. }
-    destruct (apply_op_ok G _ E acc b o l' Hinv' Hlast Ho Hsc) as (E1 & b1 & Hap & Hi1 & Hl1 & Hbl1).
+    { destruct Hinv as [A1 A2 A3 A4 A5 A6 A7 A8 A9 A10 A11]. constructor; auto; unfold key_bytes in *; lia. }
+    destruct (apply_op_ok G _ E acc b o l' Hinv' Hlast Ho Hsc) as (E1 & b1 & Hap & Hi1 & Hl1 & Hbl1 & HC1).
     cbn [run_extend]. rewrite Hap. subst l'.
-    destruct (IH G rem E1 _ b1 Hi1 Hl1 Hoks Hrest) as (E' & acc' & b' & Hrun & Hi' & Hrev).
+    destruct (IH G rem E1 _ b1 Hi1 Hl1 Hoks Hrest) as (E' & acc' & b' & Hrun & Hi' & Hrev & HC').
     exists E', acc', b'. splits; auto.
     destruct (spec_content_step (b_last b) o ops acc _ Hsc) as (Hsc1 & _). rewrite Hsc1. exact Hrev.
 Qed.
